@@ -19,47 +19,48 @@ pub fn run(prop: &str, tier: &str) -> i32 {
         return c10_11::c11_part(tier);
     }
     let mut run = Run::new(prop, tier);
+    set_thorough_menus(run.thorough());
     run.assumptions.push("inputs outside the enumerated alphabets are not covered".to_string());
     run.assumptions.push("tolerances of DESIGN.md section 1.5".to_string());
     match prop {
         "C01" => {
             run.rule = E1_RULE.to_string();
             run.bounds.push("E1 families (see families)".to_string());
-            run_e1(&mut run, &[1, 2, 3], &[false, true], 99, c01_04::eval_c01);
+            run_e1(&mut run, &[1, 2, 3], &[false, true], 999, c01_04::eval_c01);
         }
         "C02" => {
             run.rule = E1_RULE.to_string();
-            run_e1(&mut run, &[1, 2, 3], &[false, true], 99, c01_04::eval_c02);
+            run_e1(&mut run, &[1, 2, 3], &[false, true], 999, c01_04::eval_c02);
         }
         "C03" => {
             run.rule = format!("{}; x all 2^n masks (n <= 4) + mask-flip edges", E1_RULE);
-            run_e1(&mut run, &[1, 2, 3], &[false, true], 99, c01_04::eval_c03);
+            run_e1(&mut run, &[1, 2, 3], &[false, true], 999, c01_04::eval_c03);
         }
         "C04" => {
             run.rule = format!("{}; x all 2^n masks (n <= 3)", E1_RULE);
-            run_e1(&mut run, &[1, 2, 3], &[false, true], 99, c01_04::eval_c04);
+            run_e1(&mut run, &[1, 2, 3], &[false, true], 999, c01_04::eval_c04);
         }
         "C07" => {
             run.rule = format!("{}; x all 2^n masks (n <= 4 quick / 5 thorough): each node compared bitwise with the full build, so every mask-flip edge is covered by transitivity", E1_RULE);
             let mx = if run.thorough() { 5 } else { 4 };
-            run_e1(&mut run, &[1, 2, 3], &[false, true], 99, move |s| c07_12_13::eval_c07_with(s, mx));
+            run_e1(&mut run, &[1, 2, 3], &[false, true], 999, move |s| c07_12_13::eval_c07_with(s, mx));
         }
         "C12" => {
             run.rule = format!("{}; x all 2^n masks (n <= 4) x routes (direct, From<&VoronoiIntegrator>, with faces)", E1_RULE);
-            run_e1(&mut run, &[1, 2, 3], &[false, true], 99, c07_12_13::eval_c12);
+            run_e1(&mut run, &[1, 2, 3], &[false, true], 999, c07_12_13::eval_c12);
         }
         "C13" => {
             run.rule = format!("{}; x all 2^n masks (n <= 4); relations route<->route", E1_RULE);
-            run_e1(&mut run, &[1, 2, 3], &[false, true], 99, c07_12_13::eval_c13);
+            run_e1(&mut run, &[1, 2, 3], &[false, true], 999, c07_12_13::eval_c13);
         }
         "C06" => {
             run.rule = format!("periodic states of: {}; relations: replicated reflective build (n <= 3 quick / 4 thorough), shift structure, 11-14 translations per state", E1_RULE);
             let mx = if run.thorough() { 4 } else { 3 };
-            run_e1(&mut run, &[1, 2, 3], &[true], 99, move |s| c06_08_16::eval_c06_with(s, mx));
+            run_e1(&mut run, &[1, 2, 3], &[true], 999, move |s| c06_08_16::eval_c06_with(s, mx));
         }
         "C08" => {
             run.rule = format!("1D/2D states of: {}; transitions: every unused coordinate (generators, anchor, width) rewritten to each value of a 6-value menu, all pairs of such deviations with extreme values (n <= 3); 1D closed form; 2D vs 3D slab", E1_RULE);
-            run_e1(&mut run, &[1, 2], &[false, true], 99, c06_08_16::eval_c08);
+            run_e1(&mut run, &[1, 2], &[false, true], 999, c06_08_16::eval_c08);
         }
         "C16" => {
             run.rule = format!("nodes: states with |S| <= K-1 of: {}; edges: S -> S + p for every alphabet point p not in S and every ring point at r(1 +- 2^-20), 1.25 r around each cell (6-10 directions)", E1_RULE);
@@ -131,11 +132,15 @@ pub fn run(prop: &str, tier: &str) -> i32 {
         }
         "C14" => {
             run.rule = format!("{}; x all 2^n masks (n <= 3) x {{without faces, with faces (3D)}}; recording integrals implemented by this downstream crate (monomials of degree <= 2, face triangles)", E1_RULE);
-            run_e1(&mut run, &[1, 2, 3], &[false, true], 99, c14_15::eval_c14);
+            let mx = if run.thorough() { 999 } else { 32 };
+            run.bounds.push(format!("states with at most {} generators", mx));
+            run_e1(&mut run, &[1, 2, 3], &[false, true], mx, c14_15::eval_c14);
         }
         "C15" => {
             run.rule = format!("3D states of: {}; x all 2^n masks (n <= 3); per cell all type-state operation sequences of length <= 4 over {{with_faces, discard_faces, clone, integrals}}; 1D/2D states: with_faces must be rejected", E1_RULE);
-            run_e1(&mut run, &[1, 2, 3], &[false, true], 99, c14_15::eval_c15);
+            let mx = if run.thorough() { 999 } else { 32 };
+            run.bounds.push(format!("states with at most {} generators", mx));
+            run_e1(&mut run, &[1, 2, 3], &[false, true], mx, c14_15::eval_c15);
         }
         _ => {
             eprintln!("unknown property {}", prop);
